@@ -490,6 +490,108 @@ func runLockToken(c *core.Ctx) {
 			c.Fail(key, op.Pos, "%s takes the repository token %s with a wait that cannot be cancelled: a request waiting for a running collection does not return when its context is cancelled", op.Func, e.Classes[op.Class].Name)
 		}
 	}
+	// the token covers the whole collection: it is still held where the collector hands the repository to the shared
+	// mark-and-sweep. If it is given back earlier (requests are admitted while the sweep runs), the only thing left
+	// between a request and the sweep is the repository mutex — then every blob read of that store takes that mutex on
+	// every path before it touches storage; a read that does neither sees blobs the sweep is about to delete (a manifest
+	// push verifies its layers, the sweep removes them, the push is acknowledged)
+	c.SetTags("exclusion")
+	for fname := range collector {
+		var cf *ssa.Function
+		for _, f := range c.P.Funcs("internal/store") {
+			if c.P.FuncName(f) == fname {
+				cf = f
+			}
+		}
+		if cf == nil || cf.Signature.Recv() == nil {
+			continue
+		}
+		t := ""
+		if nt := an.NamedOf(an.Deref(cf.Signature.Recv().Type())); nt != nil {
+			t = "store." + nt.Obj().Name()
+		}
+		tok, has := tokenOfType[t]
+		if !has {
+			continue
+		}
+		var sweepCalls []ssa.CallInstruction
+		for _, sub := range an.WithAnon(cf) {
+			an.Calls(sub, func(call ssa.CallInstruction) {
+				h := call.Common().StaticCallee()
+				if h == nil || h.Signature.Recv() != nil || core.FuncPkgPath(h) != core.FuncPkgPath(cf) || h.Signature.Results().Len() != 3 {
+					return
+				}
+				if isNamedType(h.Signature.Results().At(0).Type(), c.P.Module+"/types", "Index") {
+					sweepCalls = append(sweepCalls, call)
+				}
+			})
+		}
+		for _, sc := range sweepCalls {
+			m, reached := e.MustHeld[sc]
+			key := "token-covers-sweep:" + kn(fname)
+			if reached && m&(1<<uint(tok)) != 0 {
+				c.Pass(key, sc.Pos(), "the repository token is held at the mark-and-sweep call")
+				continue
+			}
+			// fallback: the blob reads of this repository type go through the mutex
+			lockFree := token.NoPos
+			lockFreeFn := ""
+			mu, hasMu := e.ClassByName(t + ".mu")
+			for _, f := range c.P.Funcs("internal/store") {
+				if f.Signature.Recv() == nil || an.NamedOf(an.Deref(f.Signature.Recv().Type())) != an.NamedOf(an.Deref(cf.Signature.Recv().Type())) {
+					continue
+				}
+				res := f.Signature.Results()
+				if res.Len() != 2 || !isNamed(res.At(0).Type(), "io", "ReadSeekCloser") {
+					continue
+				}
+				an.Calls(f, func(call ssa.CallInstruction) {
+					if !an.IsFunc(call, "os", "Open") || lockFree != token.NoPos {
+						return
+					}
+					// some path from the entry reaches the open without a call that takes the repository mutex
+					seen := map[*ssa.BasicBlock]bool{}
+					var walk func(b *ssa.BasicBlock) bool
+					walk = func(b *ssa.BasicBlock) bool {
+						if seen[b] {
+							return false
+						}
+						seen[b] = true
+						for _, in := range b.Instrs {
+							if in == ssa.Instruction(call) {
+								return true
+							}
+							if ci, ok := in.(ssa.CallInstruction); ok && hasMu {
+								if takesMutex(e, ci, mu, 0) {
+									return false
+								}
+							}
+						}
+						ifi := an.BlockIf(b)
+						for i, x := range b.Succs {
+							// `if !locked { Lock }`: on the edge on which the caller says it holds the mutex, it is held
+							if ifi != nil {
+								base, neg := an.CondBase(ifi.Cond)
+								if p, isP := base.(*ssa.Parameter); isP {
+									if bt, isB := p.Type().Underlying().(*types.Basic); isB && bt.Kind() == types.Bool && ((i == 0) != neg) {
+										continue
+									}
+								}
+							}
+							if walk(x) {
+								return true
+							}
+						}
+						return false
+					}
+					if walk(f.Blocks[0]) {
+						lockFree, lockFreeFn = call.Pos(), c.P.FuncName(f)
+					}
+				})
+			}
+			c.Check(lockFree == token.NoPos, key, sc.Pos(), "%s gives the repository token back before the mark-and-sweep it starts at %s; the blob reads of that repository then all pass the repository mutex: %v%s", fname, c.P.Pos(sc.Pos()), lockFree == token.NoPos, map[bool]string{true: "", false: fmt.Sprintf(" (%s opens the blob at %s without having taken it) — a request admitted during the sweep verifies blobs the sweep is about to delete: a manifest is acknowledged whose layers the collection removes", lockFreeFn, c.P.Pos(lockFree))}[lockFree == token.NoPos])
+		}
+	}
 	c.SetTags("exclusion")
 	seenA := map[string]bool{}
 	for _, a := range e.HoldAdds {
@@ -1426,4 +1528,28 @@ func init() {
 				}
 			}
 		}})
+}
+
+// takesMutex: the call is a Lock of mutex class mu, or enters a function of the module that locks it (two levels).
+func takesMutex(e *lock.Engine, call ssa.CallInstruction, mu int, depth int) bool {
+	if depth > 2 {
+		return false
+	}
+	if an.IsMethod(call, "sync", "Mutex", "Lock") || an.IsMethod(call, "sync", "RWMutex", "Lock") || an.IsMethod(call, "sync", "RWMutex", "RLock") {
+		return true
+	}
+	h := call.Common().StaticCallee()
+	if h == nil || len(h.Blocks) == 0 {
+		return false
+	}
+	found := false
+	an.Calls(h, func(c2 ssa.CallInstruction) {
+		if _, isDefer := c2.(*ssa.Defer); isDefer {
+			return
+		}
+		if takesMutex(e, c2, mu, depth+1) {
+			found = true
+		}
+	})
+	return found
 }
